@@ -232,6 +232,7 @@ type world struct {
 	pfronts map[string]*cs.FrontSession // pure layer, key "name#ord"
 	parked  map[string]*parkedH
 	relay   map[string]string
+	atClose map[string]string // connection key -> its map as the close handler saw it (since the last op)
 
 	mu   sync.Mutex
 	recs map[int]*rec
@@ -277,9 +278,11 @@ func (w *world) dropRec(q int) {
 	w.mu.Unlock()
 }
 
-var svcTypes = map[string]string{"gate-1": "gate", "gate-2": "gate", "chat-1": "chat", "chat-2": "chat"}
+// `room` is a service type nobody registered a route rule for: app.defaultRoute sends its messages to the first
+// WORKING member of the type (in the order of the last topology update), whatever the session holds
+var svcTypes = map[string]string{"gate-1": "gate", "gate-2": "gate", "chat-1": "chat", "chat-2": "chat", "room-1": "room", "room-2": "room"}
 
-const fullTopology = "gate-1:1,gate-2:1,chat-1:1,chat-2:1"
+const fullTopology = "gate-1:1,gate-2:1,chat-1:1,chat-2:1,room-1:1,room-2:1"
 
 func (w *world) setTopology(spec string) {
 	var ms []*cluster.Member
@@ -363,6 +366,16 @@ func frontOf(s cs.IServerSession, nsName string) string {
 // callbacks.  Every op is guarded: a panic of the code under test is the
 // observation "panic".
 func runScript(nsName string, get func() cs.IServerSession, ops []string, i int, r *rec, done func()) {
+	// `busy`: the front-end of the session is busy (inside a task of its own) until this turn of the handler
+	// ends, so everything the handler sends to it in this turn is waiting in its mailbox and is handled in
+	// one go, in order, BEFORE anything the front-end posts to itself meanwhile (the removal of a session
+	// whose socket was closed)
+	var release []chan struct{}
+	defer func() {
+		for _, c := range release {
+			close(c)
+		}
+	}()
 	for ; i < len(ops); i++ {
 		// a handler re-reads its session from its context on every step (also when it resumes after a callback)
 		s := get()
@@ -403,6 +416,33 @@ func runScript(nsName string, get func() cs.IServerSession, ops []string, i int,
 					}
 				}
 				w.handles[f[1]] = &handle{svc: nsName, bs: b}
+				return "ok"
+			case "clone": // cs.CloneBackSession: a new session object for the same connection, kept under a handle
+				b, ok := s.(*cs.BackSession)
+				if !ok || nsName == "" || w.handles[f[1]] != nil {
+					return "nokeep"
+				}
+				c := cs.CloneBackSession(b)
+				w.handles[f[1]] = &handle{svc: nsName, bs: c}
+				return "ok"
+			case "busy":
+				if nsName == "" {
+					return "nons"
+				}
+				if b, ok := s.(*cs.BackSession); ok && isFront(b.ServerId) && b.ServerId != nsName {
+					if ns := w.n.Service(b.ServerId); ns != nil {
+						started, rel := make(chan struct{}), make(chan struct{})
+						ns.GetRunService().GetScheduler().Post(func() { close(started); <-rel })
+						<-started
+						release = append(release, rel)
+					}
+				}
+				return "ok"
+			case "kick": // IServerSession.Kick: the front-end closes the connection's socket; the removal is queued
+				if nsName == "" {
+					return "nons"
+				}
+				s.Kick()
 				return "ok"
 			case "pushnw": // PushSession(nil): not waited for, the handler goes on in the same turn
 				if nsName == "" {
@@ -613,6 +653,41 @@ func (r *rec) render() string {
 	return s
 }
 
+// exec interprets one op line; whatever the close handlers of connections removed during the op saw is
+// appended (` closed=<conn>=<map>|...`), and connections the server closed are forgotten
+func exec(op string) string {
+	obs := exec1(op)
+	w.mu.Lock()
+	var keys []string
+	for k := range w.atClose {
+		keys = append(keys, k)
+	}
+	sort.Strings(keys)
+	var parts []string
+	for _, k := range keys {
+		parts = append(parts, k+"="+w.atClose[k])
+	}
+	w.atClose = map[string]string{}
+	w.mu.Unlock()
+	for k, c := range w.conns {
+		if c.Closed() {
+			delete(w.conns, k)
+		}
+	}
+	if len(parts) > 0 && obs != "unguarded" && !strings.HasPrefix(op, "reset") {
+		obs += " closed=" + strings.Join(parts, "|")
+	}
+	return obs
+}
+
+// noteClose is what every connection's close callback does first
+func noteClose(front, key string, fs *cs.FrontSession) {
+	tok := hx.Guard(func() string { return w.jsonTok(front, fs.ToJson()) })
+	w.mu.Lock()
+	w.atClose[key] = tok
+	w.mu.Unlock()
+}
+
 func connKey(front string, ord int) string { return front + "#" + strconv.Itoa(ord) }
 
 func isFront(name string) bool {
@@ -624,7 +699,7 @@ func isFront(name string) bool {
 	return false
 }
 
-func exec(op string) string {
+func exec1(op string) string {
 	ws := hx.Words(op)
 	if len(ws) == 0 {
 		return "bad-op"
@@ -632,7 +707,7 @@ func exec(op string) string {
 	if strings.HasPrefix(ws[0], "u.") {
 		// unguarded stream: reserved keys written by handlers.  Outside the
 		// property's guard; the behaviour is recorded in the histogram only.
-		obs := exec(op[2:])
+		obs := exec1(op[2:])
 		cat := "other"
 		switch {
 		case strings.Contains(obs, "panic"):
@@ -669,6 +744,7 @@ func exec(op string) string {
 		w.mu.Lock()
 		w.relay = map[string]string{}
 		w.recs = map[int]*rec{}
+		w.atClose = map[string]string{}
 		w.mu.Unlock()
 		return "ok"
 
@@ -693,6 +769,8 @@ func exec(op string) string {
 			if fs := n.Sessions(f).GetSession(c.NetId()); fs != nil {
 				fs.Session = &spy{IClientSession: fs.Session, fs: fs, front: f, key: key}
 			}
+			// the application's per-connection close callback: it looks at the session's data
+			impls.AddOnSessionOnClose(ns, c.NetId(), func(_ *service.NodeService, fs *cs.FrontSession) { noteClose(f, key, fs) })
 		})
 		return w.ordTok(f, float64(c.NetId()), false)
 
@@ -709,7 +787,7 @@ func exec(op string) string {
 		case "ok", "panic":
 			n.RunOn(front, func(ns *service.NodeService) {
 				impls.AddOnSessionOnClose(ns, c.NetId(), func(_ *service.NodeService, fs *cs.FrontSession) {
-					_ = fs.ToJson()
+					noteClose(front, key, fs)
 					if cb == "panic" {
 						panic("verif: close callback panics")
 					}
@@ -963,6 +1041,19 @@ func (g *gen) remember(h, script string) {
 	}
 }
 
+// withClone inserts a `clone/<new handle>` statement at a random statement boundary of a back-end script
+func (g *gen) withClone(sc, target string) string {
+	g.nh++
+	hn := "h" + strconv.Itoa(g.nh)
+	g.handles = append(g.handles, hn)
+	g.target[hn] = target
+	g.h.Count("sop.clone")
+	parts := strings.Split(sc, ";")
+	i := g.h.R.Intn(len(parts) + 1)
+	parts = append(parts[:i], append([]string{"clone/" + hn}, parts[i:]...)...)
+	return strings.Join(parts, ";")
+}
+
 func keptHandle(script string) string {
 	for _, o := range strings.Split(script, ";") {
 		if strings.HasPrefix(o, "keep/") {
@@ -1149,7 +1240,12 @@ func (g *gen) topology() string {
 		return fullTopology
 	}
 	var parts []string
-	for _, s := range []string{"gate-1", "gate-2", "chat-1", "chat-2"} {
+	names := []string{"gate-1", "gate-2", "chat-1", "chat-2", "room-1", "room-2"}
+	if r.Intn(3) == 0 { // the members come in another order: the default route takes the first Working one
+		g.h.Count("topo.rooms-swapped")
+		names = []string{"room-2", "gate-1", "gate-2", "chat-1", "chat-2", "room-1"}
+	}
+	for _, s := range names {
 		if r.Intn(9) == 0 {
 			g.h.Count("topo.away." + svcTypes[s])
 			continue
@@ -1219,6 +1315,10 @@ func (g *gen) caseOps(nops int) []string {
 		if r.Intn(16) == 0 { // the cluster view changes: node states of the members, sometimes a service leaves
 			g.h.Count("op.topo")
 			ops = append(ops, "topo m="+g.topology())
+			if r.Intn(2) == 0 { // the next message for the rule-less type goes wherever the NEW view says
+				f, n := g.pickConn(true)
+				ops = append(ops, fmt.Sprintf("req f=%s n=%d svc=room ntf=0 s=%s", f, n, []string{"id", "get/" + hk("chatid"), "set/" + hk("k") + "/" + valField("r") + ";push"}[r.Intn(3)]))
+			}
 			// a back-end that still holds a session of some connection queries / pushes right away
 			if len(g.handles) > 0 && r.Intn(3) > 0 {
 				ops = append(ops, fmt.Sprintf("on h=%s s=%s", g.handles[r.Intn(len(g.handles))], []string{"query;json", "set/" + hk("k") + "/" + valField("t") + ";push;query", "query;get/" + hk("chatid")}[r.Intn(3)]))
@@ -1257,6 +1357,88 @@ func (g *gen) caseOps(nops int) []string {
 			ops = append(ops, fmt.Sprintf("resume t=%s s=%s;%s", tag, g.setOp(svc == "gate"), tail), "snap")
 			continue
 		}
+		if r.Intn(14) == 0 {
+			// a connection's socket is closed (Kick) while its front-end still has work queued for it: the session
+			// is still in the front-end's table until the queued removal runs; what is pushed / queried / set in
+			// that window must behave as for any live session, and the close handlers must see the result
+			f, n := g.pickConn(true)
+			kind := r.Intn(3)
+			g.h.Count(fmt.Sprintf("op.kick.kind%d", kind))
+			var sc []string
+			if kind == 0 { // a front-local handler kicks its own connection and goes on in the same turn
+				for j := r.Intn(3); j > 0; j-- {
+					sc = append(sc, []string{g.setOp(true), "get/" + hk(g.key()), "bind/" + hk(uids[r.Intn(len(uids))])}[r.Intn(3)])
+				}
+				sc = append(sc, "kick")
+				for j := r.Intn(4); j > 0; j-- {
+					sc = append(sc, []string{g.setOp(true), "get/" + hk(g.key()), "json", "id", "kick", "push"}[r.Intn(6)])
+				}
+				ops = append(ops, fmt.Sprintf("req f=%s n=%d svc=gate ntf=%d s=%s", f, n, hx.B2i(r.Intn(5) == 0), strings.Join(sc, ";")))
+			} else {
+				// a back-end handler kicks the connection, then sets and pushes without waiting, then (at most once)
+				// waits for a push / query: everything reaches the busy front-end as one batch, before the removal
+				sc = append(sc, "busy")
+				if r.Intn(3) == 0 {
+					sc = append(sc, g.setOp(false))
+				}
+				sc = append(sc, "kick")
+				for j := 1 + r.Intn(2); j > 0; j-- {
+					sc = append(sc, g.setOp(false), "pushnw")
+				}
+				if r.Intn(4) == 0 {
+					sc = append(sc, g.setOp(false)) // set, never pushed: the close handler must NOT see it
+				}
+				switch r.Intn(4) {
+				case 0:
+					sc = append(sc, "push")
+				case 1, 2:
+					sc = append(sc, "query")
+				}
+				for j := r.Intn(3); j > 0; j-- {
+					sc = append(sc, []string{"json", "get/" + hk(g.key()), "id"}[r.Intn(3)])
+				}
+				if kind == 1 {
+					ops = append(ops, fmt.Sprintf("req f=%s n=%d svc=chat ntf=%d s=%s", f, n, hx.B2i(r.Intn(6) == 0), strings.Join(sc, ";")))
+				} else {
+					var holders []string
+					for _, h := range g.handles {
+						if g.target[h] == connKey(f, n) {
+							holders = append(holders, h)
+						}
+					}
+					var h string
+					if len(holders) > 0 && r.Intn(3) > 0 {
+						h = holders[r.Intn(len(holders))]
+					} else {
+						g.nh++
+						h = "h" + strconv.Itoa(g.nh)
+						g.handles = append(g.handles, h)
+						g.target[h] = connKey(f, n)
+						ops = append(ops, fmt.Sprintf("mk h=%s at=%s f=%s n=%d uid=%s", h, []string{"chat-1", "chat-2", "gate-2", "gate-1"}[r.Intn(4)], f, n, hk(uids[r.Intn(len(uids))])))
+					}
+					g.remember(h, strings.Join(sc, ";"))
+					ops = append(ops, fmt.Sprintf("on h=%s s=%s", h, strings.Join(sc, ";")))
+				}
+			}
+			l := g.open[f]
+			for i, o := range l {
+				if o == n {
+					g.open[f] = append(append([]int{}, l[:i]...), l[i+1:]...)
+				}
+			}
+			ops = append(ops, "snap")
+			// afterwards the connection is gone: its own next message, and whoever still holds a session of it
+			if r.Intn(2) == 0 {
+				ops = append(ops, fmt.Sprintf("req f=%s n=%d svc=%s ntf=0 s=json", f, n, []string{"gate", "chat"}[r.Intn(2)]))
+			}
+			for _, h := range g.handles {
+				if g.target[h] == connKey(f, n) && r.Intn(2) == 0 {
+					ops = append(ops, fmt.Sprintf("on h=%s s=%s", h, []string{"set/" + hk("k") + "/" + valField("late") + ";push;query", "query;json", "kick;query"}[r.Intn(3)]))
+					break
+				}
+			}
+			continue
+		}
 		switch x := r.Intn(100); {
 		case x < 22: // front-local request
 			f, n := g.pickConn(true)
@@ -1270,7 +1452,15 @@ func (g *gen) caseOps(nops int) []string {
 				g.remember(h, sc)
 				g.target[h] = connKey(f, n)
 			}
-			ops = append(ops, fmt.Sprintf("req f=%s n=%d svc=chat ntf=%d s=%s", f, n, hx.B2i(r.Intn(6) == 0), sc))
+			if r.Intn(8) == 0 {
+				sc = g.withClone(sc, connKey(f, n))
+			}
+			svc := "chat"
+			if r.Intn(5) == 0 {
+				g.h.Count("op.req.forward.room")
+				svc = "room" // no route rule: default route
+			}
+			ops = append(ops, fmt.Sprintf("req f=%s n=%d svc=%s ntf=%d s=%s", f, n, svc, hx.B2i(r.Intn(6) == 0), sc))
 		case x < 72: // a kept / made back session acts later
 			if len(g.handles) == 0 {
 				continue
@@ -1288,6 +1478,9 @@ func (g *gen) caseOps(nops int) []string {
 				}
 			}
 			g.remember(h, sc)
+			if r.Intn(8) == 0 {
+				sc = g.withClone(sc, g.target[h])
+			}
 			ops = append(ops, fmt.Sprintf("on h=%s s=%s", h, sc))
 		case x < 78: // NewBackSession made directly inside a service
 			g.nh++
@@ -1297,10 +1490,13 @@ func (g *gen) caseOps(nops int) []string {
 			if r.Intn(12) == 0 {
 				f = "gate-9" // unknown front
 				g.h.Count("mk.unknown-front")
+			} else if r.Intn(16) == 0 {
+				f = "chat-2" // a cluster member that is not a front-end: it has no sys.* entries, push / query / kick fail
+				g.h.Count("mk.nonfront-member")
 			}
 			g.h.Count("op.mk")
 			g.target[hn] = connKey(f, n)
-			ops = append(ops, fmt.Sprintf("mk h=%s at=%s f=%s n=%d uid=%s", hn, []string{"chat-1", "chat-2", "gate-2"}[r.Intn(3)], f, n, hk(uids[r.Intn(len(uids))])))
+			ops = append(ops, fmt.Sprintf("mk h=%s at=%s f=%s n=%d uid=%s", hn, []string{"chat-1", "chat-2", "gate-2", "room-2"}[r.Intn(4)], f, n, hk(uids[r.Intn(len(uids))])))
 		case x < 81: // A sets k=v and pushes, B sets k=w and pushes, A sets k=v again and pushes
 			f, n := g.pickConn(true)
 			g.nh += 2
@@ -1481,13 +1677,15 @@ func TestRun(t *testing.T) {
 		h := hx.Open()
 		node.RegisterHandler("gate", &ZooEntry{}, "zoo")
 		node.RegisterHandler("chat", &ZooEntry{}, "zoo")
+		node.RegisterHandler("room", &ZooEntry{}, "zoo")
 		node.RouteBySessionKey("chat", "chatid")
 		n := node.Start(node.Options{Services: []node.Svc{
 			{Name: "gate-1", Type: "gate", Front: true}, {Name: "gate-2", Type: "gate", Front: true},
-			{Name: "chat-1", Type: "chat"}, {Name: "chat-2", Type: "chat"}}})
+			{Name: "chat-1", Type: "chat"}, {Name: "chat-2", Type: "chat"},
+			{Name: "room-1", Type: "room"}, {Name: "room-2", Type: "room"}}})
 		w = &world{h: h, n: n, total: map[string]uint32{}, base: map[string]uint32{}, conns: map[string]*node.Client{},
 			nOpen: map[string]int{}, handles: map[string]*handle{}, pfronts: map[string]*cs.FrontSession{}, recs: map[int]*rec{},
-			parked: map[string]*parkedH{}, relay: map[string]string{}}
+			parked: map[string]*parkedH{}, relay: map[string]string{}, atClose: map[string]string{}}
 		run := func(op string) {
 			obs := exec(op)
 			h.Emit(op, obs)
